@@ -215,6 +215,23 @@ class CFG:
             return None
         return self.path(start, exits, avoid=through)
 
+    def edge_dominated(self, a, b):
+        """blocks that can only be reached from the entry through the edge a -> b (control dependent on that arm)"""
+        if b not in self.succ[a]:
+            return set()
+        seen = set()
+        stack = [0]
+        while stack:
+            x = stack.pop()
+            if x in seen:
+                continue
+            seen.add(x)
+            for s in self.succ[x]:
+                if x == a and s == b:
+                    continue
+                stack.append(s)
+        return self.reach - seen
+
     # ------------------------------------------------------------------ loops
     def back_edges(self):
         out = []
